@@ -200,7 +200,7 @@ def writeBond3 (atoms : List WAtom) (p : Nat × (Nat × Nat × Nat)) : R Str := 
   let b ← atomIndex atoms m
   pure (sL "M  V30 " ++ natDigits i ++ sL " " ++ natDigits o ++ sL " " ++ natDigits a ++ sL " " ++ natDigits b ++ sL "\n")
 
-def enumFrom (start : Nat) (l : List α) : List (Nat × α) := (List.range l.length).map (· + start) |>.zip l
+def enumFrom (start : Nat) (l : List α) : List (Nat × α) := enumFromK start l
 
 /-- `EMOLWrite._write_molecule(g)` -/
 def writeMol3000 (mapping : Bool) (g : WMol) : R (List Str) := do
